@@ -270,5 +270,8 @@ def run(ck, replay=None):
     for i in nontriv[:400]:
         if len(ck.cov['samples']) < 4 and len(argvs[i]) >= 3 and sum(len(set(a) - PLAIN) for a in argvs[i]) >= 3:
             ck.sample({'argv': argvs[i], 'escaped_line': texts[i], 'parsed_back': argvs[i]})
+    for i in sorted(nontriv, key=lambda i: -sum(len(set(a) - PLAIN) for a in argvs[i]))[:2]:
+        if len(ck.cov['samples']) < 2:
+            ck.sample({'argv': argvs[i], 'escaped_line': texts[i], 'parsed_back': argvs[i]})
     if not ck.violations and len(nontriv) < 1000:
         raise common.Infra('vacuous: %d non-trivial argv round-tripped' % len(nontriv))
